@@ -416,7 +416,7 @@ func vC14RecCase(t *testing.T, c *vh.Case, sc vC14RecScn) {
 
 func TestVerif_C14_provmgr(t *testing.T) {
 	vh.Run(t, vh.Spec{Prop: "C14", Unit: "provmgr", Quick: 100, Thorough: 4000, CostMs: 60,
-		Rule: "PRNG ProviderManager over the journaling datastore (GC every 50-900 ms or disabled, provide validity 0.3-3 s, 0-12 pre-filled entries half of them expired, GC accesses take 1-6 ms of virtual time) with 1-4 clients issuing 2-8 AddProvider/GetProviders at PRNG gaps; reference run counts boundary events (datastore accesses, call starts/returns), re-runs Close immediately after construction, at 2 events of a GC pass and 2 PRNG indices (thorough: all, <= 64); non-trivial = Close during a GC pass or between a call's start and return; distinct by (clients, event kinds at Close)",
+		Rule:    "PRNG ProviderManager over the journaling datastore (GC every 50-900 ms or disabled, provide validity 0.3-3 s, 0-12 pre-filled entries half of them expired, GC accesses take 1-6 ms of virtual time) with 1-4 clients issuing 2-8 AddProvider/GetProviders at PRNG gaps; reference run counts boundary events (datastore accesses, call starts/returns), re-runs Close immediately after construction, at 2 events of a GC pass and 2 PRNG indices (thorough: all, <= 64); non-trivial = Close during a GC pass or between a call's start and return; distinct by (clients, event kinds at Close)",
 		Clauses: []string{"baseline-clean", "close-returns-in-bound", "no-goroutine-after-close", "close-again-returns", "op-returns", "op-no-panic", "late-call-errclosed", "no-goroutine-after-2min", "datastore-fenced"}},
 		func(c *vh.Case) {
 			r := c.R
@@ -431,7 +431,7 @@ func TestVerif_C14_provmgr(t *testing.T) {
 
 func TestVerif_C14_valuestore(t *testing.T) {
 	vh.Run(t, vh.Spec{Prop: "C14", Unit: "valuestore", Quick: 100, Thorough: 4000, CostMs: 50,
-		Rule: "PRNG ValueStore over the journaling datastore (max record age 0.3-3 s, GC every 50-900 ms: started / started twice / never started / no-op interval / parent context cancelled at a PRNG instant; 0-8 pre-filled records; the GC's unlocked accesses take 1-6 ms of virtual time) with 1-4 clients issuing 2-8 Put/Get; Close instants enumerated as for provmgr; non-trivial = Close during a GC pass or between a call's start and return",
+		Rule:    "PRNG ValueStore over the journaling datastore (max record age 0.3-3 s, GC every 50-900 ms: started / started twice / never started / no-op interval / parent context cancelled at a PRNG instant; 0-8 pre-filled records; the GC's unlocked accesses take 1-6 ms of virtual time) with 1-4 clients issuing 2-8 Put/Get; Close instants enumerated as for provmgr; non-trivial = Close during a GC pass or between a call's start and return",
 		Clauses: []string{"baseline-clean", "close-returns-in-bound", "no-goroutine-after-close", "close-again-returns", "op-returns", "op-no-panic", "late-call-unfenced-works", "no-goroutine-after-2min", "gc-stopped"}},
 		func(c *vh.Case) {
 			r := c.R
@@ -445,7 +445,7 @@ func TestVerif_C14_valuestore(t *testing.T) {
 // constructor failure: a failing option must leave nothing behind
 func TestVerif_C14_provmgr_ctor(t *testing.T) {
 	vh.Run(t, vh.Spec{Prop: "C14", Unit: "provmgr_ctor", Quick: 20, Thorough: 200, CostMs: 3,
-		Rule: "NewProviderManager with the i-th of 1-4 options failing; oracle: error returned, no goroutine of the package left, datastore untouched; all cases non-trivial",
+		Rule:    "NewProviderManager with the i-th of 1-4 options failing; oracle: error returned, no goroutine of the package left, datastore untouched; all cases non-trivial",
 		Clauses: []string{"ctor-returns-error", "ctor-fail-no-goroutine"}},
 		func(c *vh.Case) {
 			n := 1 + c.R.Intn(4)
